@@ -18,7 +18,8 @@ RULE = ("bounded-exhaustive enumeration (E1): frame length 0..255 x content patt
         "(marker, little-endian length == byte count, id bytes, timestamp, MD5 over packet[:-16]+key, AES-ECB/PKCS7) and whose "
         "reply is built by the reference codec for a different frame; plus a direct _Packet.encode/decode sweep over lengths 0..600, incl. "
         "frames that begin or end with the protocol's own literals (5A5A, 8370, AA, ERROR, pad bytes) and the requirement that a decoded frame "
-        "stays what it was when the next packet is decoded. "
+        "stays what it was when the next packet is decoded; plus, for every frame length, exchanges whose first 1 / 2 transmissions the "
+        "peer ignores: every retransmission written to the wire must decode under the reference codec to the same frame and id. "
         "non-trivial = frame length > 0")
 ASSUMPTIONS = ["AES block primitive and hashlib.md5 are correct", "one reply packet per TCP segment (V2 has no reassembly layer)"]
 IP, PORT = "10.0.0.9", 6444
@@ -61,6 +62,7 @@ def shards(tier):
     out = [("ids", i, i + 4) for i in range(0, n, 4)]
     out += [("instants", i, i + 1) for i in range(len(INSTANTS))]
     out += [("direct", 0, 0)]
+    out += [("retx", d, 0) for d in (1, 2)]
     return out
 
 
@@ -69,8 +71,9 @@ def expected_ts(epoch: datetime) -> bytes:
                            epoch.microsecond // 10000)
 
 
-def execute(n: int, pat: int, dev_id: int, inst: int):
-    """One LAN.send; returns observation tuple."""
+def execute(n: int, pat: int, dev_id: int, inst: int, drop: int = 0):
+    """One LAN.send; returns observation tuple.  drop = number of transmissions the peer ignores before it answers (the
+    retransmissions the library then writes are packets like any other: an independent decoder must accept them too)."""
     epoch = INSTANTS[inst]
     w = World(epoch=epoch)
     frame = al.payload("c02/f", n, pat)
@@ -82,6 +85,8 @@ def execute(n: int, pat: int, dev_id: int, inst: int):
     def on_data(conn, data, i):
         seen.append(data)
         tx_times.append(conn.net.loop.time())
+        if len(seen) <= drop:
+            return
         reply = rc.v2_build(reply_frame, dev_id, timestamp=bytes([1, 2, 3, 4, 5, 6, 7, 8]), magic=b"\x20\x80",
                             message_id=b"\x11\x22\x33\x44", tail=bytes(range(12)))
         conn.deliver(reply, 0.01)
@@ -98,9 +103,22 @@ def execute(n: int, pat: int, dev_id: int, inst: int):
 
 def judge(st: Stats, case, frame, reply_frame, seen, out, epoch, dev_id):
     prob = None
-    if len(seen) != 1:
+    drop = case.get("drop", 0)
+    if len(seen) != 1 + drop:
         prob = f"{len(seen)} transmissions"
     else:
+        # retransmissions: only what the statement fixes (decodable, same frame, same id); their time stamp may be the first
+        # one or a fresh one
+        for k, tx in enumerate(seen[1:]):
+            try:
+                p = rc.v2_parse(tx)
+                if p.frame != frame or p.device_id != dev_id:
+                    prob = f"retransmission {k + 1}: frame or id differs after reference decode"
+            except rc.RefError as e:
+                prob = f"retransmission {k + 1}: " + str(e)
+            if prob:
+                break
+    if prob is None:
         try:
             p = rc.v2_parse(seen[0])
             if p.frame != frame:
@@ -147,6 +165,13 @@ def run_shard(shard, tier) -> Stats:
                         prob = judge(st, case, *obs, idl[ii])
                         st.ev(("w", n, pat, idl[ii], inst), "ok" if not prob else "bad", n > 0,
                               sample=None if (n, ii) != (33, a) else {**case, "wire": obs[2][0].hex() if obs[2] else None})
+    elif kind == "retx":
+        for n in range(256):
+            pat, dev_id, inst = n % 5, idl[n % len(idl)], n % len(INSTANTS)
+            case = {"kind": "wire", "len": n, "pattern": pat, "id": dev_id, "instant": inst, "drop": a}
+            obs = execute(n, pat, dev_id, inst, drop=a)
+            prob = judge(st, case, *obs, dev_id)
+            st.ev(("retx", n, a), "ok" if not prob else "bad", n > 0)
     elif kind == "instants":
         for n in range(256):
             for pat in range(5):
@@ -229,6 +254,6 @@ def replay(case):
     if case["kind"] == "direct":
         return run_shard(("direct", 0, 0), "quick").viol_counts
     st = Stats()
-    obs = execute(case["len"], case["pattern"], case["id"], case["instant"])
+    obs = execute(case["len"], case["pattern"], case["id"], case["instant"], drop=case.get("drop", 0))
     prob = judge(st, case, *obs, case["id"])
     return {"problem": prob, "wire": [s.hex() for s in obs[2]], "outcome": str(obs[3])}
